@@ -25,7 +25,7 @@ ASSUMPTIONS = [
     'ddl=True sessions and the nested-serializable refusal of _enter are outside the model; immediate/strict/serializable/optimistic are varied in the '
     'correspondence run and shown not to influence the observations',
 ]
-RULE = ('exhaustive: decorator sessions with retry 0..3 x every stream of body outcomes of length retry+1 over {finish, raise one of 6 exception kinds '
+RULE = ('every implementation run is judged twice - by the Coq model (correspondence) and by the statement-level oracle (search): `evaluations` counts both judgements, `distinct_nontrivial` counts each distinct run once. ' 'exhaustive: decorator sessions with retry 0..3 x every stream of body outcomes of length retry+1 over {finish, raise one of 6 exception kinds '
         '(plain / allowed / retryable / both / should_retry / allowed+should_retry)} (x poisoned-write variants for the shorter streams) x list-or-callable '
         'predicates x option flags; nested programs (with / decorated call / try / sequence, depth <= 2 exhaustive, depth 3 sampled from the seed); generator '
         'step sequences up to 3 resumptions; Flask and Bottle requests. non-trivial = the run retried, or a commit failed, or a session was nested, or an '
@@ -188,6 +188,7 @@ def run_cases(ctx, cases, procs=4):
 
 
 _cache = {}
+_counted = set()      # result sets whose non-trivial cases were already counted by correspondence()
 
 def get_results(ctx, deep=False):
     key = (ctx.seed, ctx.tier, deep)
@@ -279,6 +280,7 @@ def nontrivial_case(case, ob):
 
 def correspondence(ctx):
     cases, res, info = get_results(ctx, False)
+    _counted.add((ctx.seed, ctx.tier, False))
     exprs, meta, disagreements = [], [], []
     dist = {}
     nontriv = set()
@@ -469,6 +471,7 @@ def search(ctx, deep):
     dist = {}
     for c in cases: dist[c['kind']] = dist.get(c['kind'], 0) + 1
     dist['failing_cases_by_key'] = seen
+    if (ctx.seed, ctx.tier, deep) in _counted: nontriv = set()      # same executions as the correspondence run: count distinct cases once
     return Search(evaluations=len(cases), failures=fails, nontrivial=len(nontriv), distribution=dist, exhaustive=True,
                   samples=[{'case': cases[len(cases) // 2], 'observed': res[len(cases) // 2]}])
 
@@ -480,7 +483,7 @@ def replay(ctx, data):
     want = data.get('key')
     for f in fails:
         if want is None or f.key == want: return f
-    return fails[0] if fails else None
+    return None
 
 
 LEVEL_TEXT = ('Machine-checked proof (Coq 8.16.1) over an executable model of DBSessionContextManager: for every stream of body outcomes, every retry '
